@@ -175,6 +175,13 @@ class DeepONetDataset_Unique(torch.utils.data.Dataset):
         self.branch_batch_size = (
             len(self.branch_data_points) if branch_batch_size < 0 else branch_batch_size
         )
+        # a batch can not be larger than the data set
+        self.trunk_batch_size = min(
+            self.trunk_batch_size, len(self.trunk_data_points[0])
+        )
+        self.branch_batch_size = min(
+            self.branch_batch_size, len(self.branch_data_points)
+        )
 
         self.branch_space = branch_space
         self.trunk_space = trunk_space
@@ -290,6 +297,11 @@ class DeepONetDataset(torch.utils.data.Dataset):
         )
         self.branch_batch_size = (
             len(self.branch_data_points) if branch_batch_size < 0 else branch_batch_size
+        )
+        # a batch can not be larger than the data set
+        self.trunk_batch_size = min(self.trunk_batch_size, len(self.trunk_data_points))
+        self.branch_batch_size = min(
+            self.branch_batch_size, len(self.branch_data_points)
         )
 
         self.branch_space = branch_space
